@@ -65,6 +65,28 @@ fn bv_queries(g: &mut Gen, name: &str, bits: &[bool], samples: usize, lines: &mu
     for r in query_args(g, len - ones, samples) { lines.push(format!("bv {} select0 {}", name, r)); }
 }
 
+/// plain bitvectors over raw vectors WITH A HISTORY (see below)
+pub fn raw_history_bitvectors(g: &mut Gen) {
+    // plain bitvectors over raw vectors WITH A HISTORY: resized inside the same word (shrinking over set bits, growing with
+    // ones), popped, overwritten — the bits beyond `len` in the last word must not be counted or found
+    for (len0, kind) in [(1000usize, 2usize), (190, 3), (66, 6), (128, 2), (64, 3), (513, 6)] {
+        let bits = make_bits(g, len0, kind);
+        for (new_len, fill) in [(len0.saturating_sub(30), 0u8), (len0.saturating_sub(1), 1), (len0 + 34, 1), (len0 + 1, 1), (len0 / 64 * 64 + 1, 0), ((len0 + 63) / 64 * 64, 1)] {
+            let mut lines = vec![format!("raw A from_words {} {}", len0, words_of_bits(&bits)), format!("raw A resize {} {}", new_len, fill)];
+            let mut cur: Vec<bool> = bits.clone(); cur.resize(new_len, fill == 1);
+            lines.push("bv B of_raw A".to_string()); lines.push("bv B enable rsz".to_string());
+            bv_queries(g, "B", &cur, 8, &mut lines);
+            lines.push("bv B it one : l b l n l".to_string()); lines.push("bv B it zero : l b l n l".to_string());
+            // … and after a further pop / push on the same raw vector
+            lines.push("raw A pop_bit".to_string()); lines.push("raw A push_bit 0".to_string()); lines.push("raw A push_bit 1".to_string());
+            if !cur.is_empty() { cur.pop(); } cur.push(false); cur.push(true);
+            lines.push("bv C of_raw A".to_string()); lines.push("bv C enable rsz".to_string());
+            bv_queries(g, "C", &cur, 4, &mut lines);
+            g.group(lines);
+        }
+    }
+}
+
 pub fn c01(g: &mut Gen) {
     // beyond 2^32 bits / 2^32 set bits (counts, ranks and sample arrays must be full-width): thorough scale only
     // (about 0.7 GiB and a few seconds per case; each case is its own group, hence its own process shard)
@@ -87,6 +109,7 @@ pub fn c01(g: &mut Gen) {
             g.group(lines);
         }
     }
+    raw_history_bitvectors(g);
     // conversion from sources whose item count differs from their number of distinct positions (multisets): the
     // plain bitvector must count the BITS it holds
     for (n, vals) in [(140u64, vec![3u64, 4, 4, 7, 11, 11, 11, 19, 64, 64, 130]), (5, vec![0, 0, 4, 4, 4]), (70, vec![69, 69]), (200, (0..150).map(|i| (i / 3) * 4).collect::<Vec<u64>>())] {
@@ -268,6 +291,7 @@ pub fn c09(g: &mut Gen) {
 }
 
 pub fn c08(g: &mut Gen) {
+    raw_history_bitvectors(g);
     // memory safety: the C01 / C09 / C10 recipes are re-run with the bounds hooks on in every build configuration
     // (check.py lists those generators for C08); this entry adds call sequences aimed at the unchecked accessors.
     for (len, kind) in [(1usize, 1usize), (64, 1), (64, 0), (65, 2), (128, 9), (4097, 2)] {
@@ -415,6 +439,7 @@ pub fn c10_bv(g: &mut Gen) {
 
 pub fn c10(g: &mut Gen) {
     c10_bv(g);
+    crate::gen_ser::long_skips_under_supports(g);
     crate::gen_sp::c10_sp(g);
     crate::gen_rl::c10_rl(g);
     crate::gen_wm::c10_wm(g);
